@@ -21,6 +21,7 @@ type c01Case struct {
 	RDelay  int    `json:"read_delay"`
 	RProcs  int    `json:"rprocs"`
 	Stmt    bool   `json:"stmt_yields,omitempty"` // statement-level yields inside package bgzf
+	ZeroRd  bool   `json:"zero_reads,omitempty"`  // the disk's Read sometimes returns (0, nil)
 	Blocked bool   `json:"-"`
 }
 
@@ -37,7 +38,7 @@ func (c01) Runs(tier string) int {
 }
 func (c01) New() interface{} { return &c01Case{} }
 func (c01) Rule() string {
-	return "seeded write scripts over {Write(len around 0,1,64,4096,BS±1,2BS±1,3BS; zeros/text/random/mixed),Flush,Wait}+Close, level∈[-1,9], wc∈{-1,0,1,2,3,4,8}, then a reader with rd∈{0,1,2,3,4,8} (rd=0 resolves through the simulated GOMAXPROCS), 4 reader interface kinds, short/1-byte/EOF-with-data reads, read-size scripts mixing Read(n) and ReadByte; every goroutine interleaving decided by the tape. non-trivial: >=2 non-empty members produced AND >=1 preemptive context switch; distinct = (case, schedule signature)"
+	return "seeded write scripts over {Write(len around 0,1,64,4096,BS±1,2BS±1,3BS; zeros/text/random/mixed),Flush,Wait}+Close, level∈[-1,9], wc∈{-1,0,1,2,3,4,8}, then a reader with rd∈{0,1,2,3,4,8} (rd=0 resolves through the simulated GOMAXPROCS), 4 reader interface kinds, short/1-byte/EOF-with-data/(0, nil) reads, read-size scripts mixing Read(n) and ReadByte; every goroutine interleaving decided by the tape. non-trivial: >=2 non-empty members produced AND >=1 preemptive context switch; distinct = (case, schedule signature)"
 }
 
 var rdChoices = []int{0, 1, 2, 3, 4, 8}
@@ -93,6 +94,7 @@ func (c01) Gen(t *Tape, tier string, run int) interface{} {
 	c.RDelay = t.Pick("work", 0, 0, 1, 3)
 	c.RProcs = t.Pick("work", 1, 2, 3, 4)
 	c.Stmt = t.Chance("work", 1, 4) && len(c.W.Written()) <= 20000
+	c.ZeroRd = t.Chance("work", 1, 4)
 	return c
 }
 
@@ -174,13 +176,13 @@ func (c01) Exec(x *Exec, ci interface{}) *Verdict {
 		x.Probe("compress_finished_out_of_order")
 	}
 	img := append([]byte(nil), file.Data...)
-	rfile := &File{X: x, Name: "f", Data: img, Chunk: c.Chunk, EOFWithData: c.EOFData, MaxDelay: c.RDelay}
+	rfile := &File{X: x, Name: "f", Data: img, Chunk: c.Chunk, EOFWithData: c.EOFData, MaxDelay: c.RDelay, ZeroReads: c.ZeroRd}
 	var got []byte
 	var rerr, openErr, closeErr error
 	var note string
 	var after []string
 	x.Procs = c.RProcs
-	res = x.RunSim("read", estReadSteps(len(img), c.Chunk, c.Kind, c.RDelay), func() {
+	res = x.RunSim("read", estReadSteps(len(img), c.Chunk, c.Kind, c.RDelay)*2, func() {
 		r, err := bgzf.NewReader(rfile.As(c.Kind), c.RD)
 		if err != nil {
 			openErr = err
@@ -293,9 +295,9 @@ func (c01) Shrinks(ci interface{}) []interface{} {
 		n.Kind = "read+seek"
 		out = append(out, &n)
 	}
-	if c.Chunk != 0 || c.EOFData || c.RDelay != 0 {
+	if c.Chunk != 0 || c.EOFData || c.RDelay != 0 || c.ZeroRd {
 		n := *c
-		n.Chunk, n.EOFData, n.RDelay = 0, false, 0
+		n.Chunk, n.EOFData, n.RDelay, n.ZeroRd = 0, false, 0, false
 		out = append(out, &n)
 	}
 	return out
